@@ -5,6 +5,16 @@ HERE = os.path.dirname(os.path.dirname(os.path.abspath(__file__)))
 ALL = ['C%02d' % i for i in range(1, 21)]
 
 CLAIMED = {
+ 'C20': dict(
+    level='model_checking',
+    text='Session.tla states that the result of a compile or run request is a function of the request alone (memo over all processes '
+         'and environments); MC_Session enumerates every history of requests up to the length bound (plus longer simulated ones) as '
+         'drivers; each history runs in one fresh child process under a rotating environment (hash seed, working directory, shifted '
+         'clock), every request also alone under three hash seeds; the ordered record of <request, result digest> events is one trace '
+         'that Trace_Session.tla validates against Session.tla.',
+    note='Trusted: TLC, sha1 digests of sections 1-4 + listing (compile) and of events + outcome + tick count (run); the specification is a history enumerator plus a function-of-request invariant, the bug-finding power is the enumeration.',
+    technique='TLA+ session model, TLC history enumeration as drivers, trace validation of recorded results',
+    design='6 C20'),
  'C16': dict(
     level='model_checking',
     text='NumText.tla states every clause of the property on byte texts and exact decimal digit sequences (shape and sign position, '
